@@ -216,10 +216,10 @@ AREAS["C02"] = {
                                    "NATS reconnection, timer races and the goroutines of the sync client are not modelled: catch-up is modelled as a sequence of syncNode passes with no concurrent writes"],
     "level_text": "proof (partial): C02_recursion_converges (one pass of syncNode over a tree-shaped device subtree that both sides hold leaves, on every node and edge of it and on both sides, the newer point "
                   "per identity of the two they held, touches nothing outside it and keeps both stores in good standing - for every such pair of stores, every tree height, under faithful hashes), "
-                  "C02_exchange_join / C02_node_exchange_store / C02_edge_exchange_store (the two comparison loops), C02_no_revert_node/edge, C02_equal_hash_is_a_fixpoint and C02_convergence_refuted "
+                  "C02_exchange_join / C02_node_exchange_store / C02_edge_exchange_store (the two comparison loops), C02_node_creation (SendNode copies a node that one side lacks), C02_no_revert_node/edge, C02_equal_hash_is_a_fixpoint and C02_convergence_refuted "
                   "(without faithful hashes the statement is false of the faithful model: equal XOR hashes over different content) are Coq theorems; the whole catch-up (incl. transfer of nodes that exist "
                   "on one side only) is an executable model validated on every run against two real linked instances, and the convergence / no-lost-write specification is evaluated on the real dumps",
-    "level_note": "partial: the recursion theorem covers subtrees present on both sides (deletions are tombstone points and are covered); nodes created on one side only (sendNodesRemote / sendNodesLocal) and "
+    "level_note": "partial: the recursion theorem covers subtrees present on both sides (deletions are tombstone points and are covered); the transfer of a node that one side lacks is proved for one node (C02_node_creation), the recursion over its children (sendNodesRemote / sendNodesLocal) and "
                   "mirrors inside the device tree are covered by correspondence on generated histories, not by a theorem; link-level behaviour (reconnects, timers, callback goroutines) cannot be exhibited by the model",
 }
 
